@@ -27,7 +27,8 @@ fn inst(
         props: props.to_vec(),
         mode,
         body: Arc::new(body),
-        policy: rt::Policy::Preemption,
+        k: 0,
+        p_with_k: None,
         expect_all_dead: true,
         tls_reverse: false,
         size,
@@ -142,6 +143,100 @@ fn more_family<S: Strat + arc_swap::strategy::Strategy<crate::api::V2> + arc_swa
             ));
         }
         out.push(inst(
+            format!("iso_ab:{}:{}", path, m),
+            &["C01", "C03", "C12", "C13"],
+            mode,
+            2,
+            "R{load A, load B (another pointee type)} || W{store A, store A}",
+            move || h_more::iso_ab::<S>(fill),
+        ));
+        {
+            let mut x = inst(
+                format!("cas_adv:{}:{}", path, m),
+                &["C02", "C05", "C09"],
+                mode,
+                2,
+                "C{compare_and_swap(a => n)} with W{store b; store a} as complete calls in any gaps (A-B-A)",
+                move || h_more::cas_adv::<S>(fill),
+            );
+            x.k = 2;
+            x.p_with_k = Some(0);
+            out.push(x);
+            let mut x = inst(
+                format!("rcu_aba:{}:{}", path, m),
+                &["C02", "C06", "C09"],
+                mode,
+                2,
+                "T{rcu(+1)} with W{swap b; swap a (the same object again)} as complete calls in any gaps (A-B-A)",
+                move || h_more::rcu_aba::<S>(fill),
+            );
+            x.k = 2;
+            x.p_with_k = Some(0);
+            out.push(x);
+            let mut x = inst(
+                format!("rcu_adv:{}:{}", path, m),
+                &["C02", "C06", "C09"],
+                mode,
+                2,
+                "T{rcu(+1)} with W{store 100; store 200} as complete calls in any gaps",
+                move || h_more::rcu_adv::<S>(fill),
+            );
+            x.k = 2;
+            x.p_with_k = Some(0);
+            out.push(x);
+        }
+        if mode == Fresh {
+            let mut x = inst(
+                format!("help_adv:{}", path),
+                &["C01", "C03"],
+                mode,
+                4,
+                "R{load, load} || W{store} interleaved step by step (3 preemptions) + W2{store} as one complete call placed anywhere",
+                move || h_more::help_adv::<S>(fill),
+            );
+            x.k = 1;
+            x.p_with_k = Some(3);
+            out.push(x);
+        }
+        if mode == Fresh {
+            for tw in [false, true] {
+                out.push(inst(
+                    format!("panic_dtor{}:{}", if tw { "2" } else { "" }, path),
+                    &["C18"],
+                    mode,
+                    if tw { 3 } else { 2 },
+                    "the destructor of the initial value panics wherever it runs: R{load, drop, load, drop} || W{store} (|| W2{store}), every call under catch_unwind",
+                    move || h_more::panic_dtor::<S>(fill, tw),
+                ));
+            }
+            for at in 1..=3u64 {
+                out.push(inst(
+                    format!("panic_rcu{}:{}", at, path),
+                    &["C18"],
+                    mode,
+                    2,
+                    "rcu whose closure panics on its k-th attempt || W{store, store} forcing retries",
+                    move || h_more::panic_rcu::<S>(fill, at),
+                ));
+            }
+        }
+        out.push(inst(
+            format!("cache_conc:{}:{}", path, m),
+            &["C16"],
+            mode,
+            2,
+            "W{store, store, flag.store(Release)} || C{cache.load; if flag.load(Acquire) {cache.load}; cache.load}",
+            move || h_more::cache_conc::<S>(fill),
+        ));
+        out.push(inst(
+            format!("map_conc:{}:{}", path, m),
+            &["C17"],
+            mode,
+            2,
+            "R{g = Map.load; deref; deref; drop; load; deref} || W{store, store}",
+            move || h_more::map_conc::<S>(fill),
+        ));
+        out.push(inst(
             format!("iso_types:{}:{}", path, m),
             &["C01", "C12", "C13"],
             mode,
@@ -238,7 +333,8 @@ fn adversary_family<S: Strat>(out: &mut Vec<Inst>, fill: bool) {
                 "W{up to K complete stores placed by the adversary into every gap of the reader's calls} || R{load, load_full} holding g guards",
                 move || h_more::adversary::<S>(k, g, fill),
             );
-            i.policy = rt::Policy::Adversary { target: 2, writer: 1, k: k as u32 };
+            i.k = k as u32;
+            i.p_with_k = Some(0);
             out.push(i);
         }
     }
